@@ -54,6 +54,7 @@ func main() {
 	timed("secLoop", func() { secLoop(r) })
 	timed("secSubdivider", func() { secSubdivider(r) })
 	timed("secDecimate", func() { secDecimate(r) })
+	timed("secLarge", func() { secLarge(r) })
 	timed("secCoplanar", func() { secCoplanar(r) })
 	timed("secEliminateEdges", func() { secEliminateEdges(r) })
 	timed("secBlur", func() { secBlur(r) })
